@@ -389,20 +389,23 @@ func funcDisplayName(fn *ssa.Function) string {
 
 // query renders the SMT-LIB text of one obligation.
 func (g *Gen) query(o *Obligation) string {
+	var body strings.Builder
+	for _, l := range g.lines[:o.Prefix] {
+		body.WriteString(l)
+		body.WriteString("\n")
+	}
+	if o.Expect == "sat" {
+		body.WriteString("(assert " + o.Goal + ")\n")
+	} else {
+		body.WriteString("(assert (not " + o.Goal + "))\n")
+	}
+	body.WriteString("(check-sat)\n")
+	bs := body.String()
 	var sb strings.Builder
 	sb.WriteString(prelude)
 	sb.WriteString(g.te.decls())
-	sb.WriteString(g.lib.TextFor(g.reveals()))
-	for _, l := range g.lines[:o.Prefix] {
-		sb.WriteString(l)
-		sb.WriteString("\n")
-	}
-	if o.Expect == "sat" {
-		sb.WriteString("(assert " + o.Goal + ")\n")
-	} else {
-		sb.WriteString("(assert (not " + o.Goal + "))\n")
-	}
-	sb.WriteString("(check-sat)\n")
+	sb.WriteString(g.lib.TextUsed(g.reveals(), bs))
+	sb.WriteString(bs)
 	return sb.String()
 }
 
